@@ -63,15 +63,15 @@ func EncBool(b []byte, v bool) []byte {
 	}
 	return append(b, 0)
 }
-func EncByte(b []byte, v int8) []byte       { return append(b, byte(v)) }
-func EncI16(b []byte, v int16) []byte       { return U16(b, uint16(v)) }
-func EncI32(b []byte, v int32) []byte       { return U32(b, uint32(v)) }
-func EncI64(b []byte, v int64) []byte       { return U64(b, uint64(v)) }
-func EncDouble(b []byte, v float64) []byte  { return U64(b, math.Float64bits(v)) }
-func EncString(b []byte, s string) []byte   { return append(U32(b, uint32(len(s))), s...) }
-func EncBinary(b []byte, s []byte) []byte   { return append(U32(b, uint32(len(s))), s...) }
-func EncFieldBegin(b []byte, t byte, id int16) []byte { return U16(append(b, t), uint16(id)) }
-func EncFieldStop(b []byte) []byte          { return append(b, 0) }
+func EncByte(b []byte, v int8) []byte                    { return append(b, byte(v)) }
+func EncI16(b []byte, v int16) []byte                    { return U16(b, uint16(v)) }
+func EncI32(b []byte, v int32) []byte                    { return U32(b, uint32(v)) }
+func EncI64(b []byte, v int64) []byte                    { return U64(b, uint64(v)) }
+func EncDouble(b []byte, v float64) []byte               { return U64(b, math.Float64bits(v)) }
+func EncString(b []byte, s string) []byte                { return append(U32(b, uint32(len(s))), s...) }
+func EncBinary(b []byte, s []byte) []byte                { return append(U32(b, uint32(len(s))), s...) }
+func EncFieldBegin(b []byte, t byte, id int16) []byte    { return U16(append(b, t), uint16(id)) }
+func EncFieldStop(b []byte) []byte                       { return append(b, 0) }
 func EncMapBegin(b []byte, kt, vt byte, n uint32) []byte { return U32(append(b, kt, vt), n) }
 func EncListBegin(b []byte, et byte, n uint32) []byte    { return U32(append(b, et), n) }
 func EncMessageBegin(b []byte, name string, mtype int32, seq int32) []byte {
@@ -216,16 +216,16 @@ const (
 // ParseResult is the oracle's verdict on "is a complete well-formed value of type t at b[0:]".
 type ParseResult struct {
 	OK          bool
-	N           int  // extent when OK
-	FailOff     int  // offset where parsing failed
-	Causes      int  // set of causes that hold at the failing position
-	FailNesting int  // number of containers open at the failure (incl. the failing one if a container header)
-	MaxNesting  int  // deepest container nesting entered
-	MaxDeclared int64 // largest size field met (strings and containers)
+	N           int    // extent when OK
+	FailOff     int    // offset where parsing failed
+	Causes      int    // set of causes that hold at the failing position
+	FailNesting int    // number of containers open at the failure (incl. the failing one if a container header)
+	MaxNesting  int    // deepest container nesting entered
+	MaxDeclared int64  // largest size field met (strings and containers)
 	MaxAsk      uint64 // largest byte count a streaming skipper may request/buffer in one go (size fields read as unsigned)
-	DontCare    bool // empty container with unknown element type met
-	TooDeep     bool // the oracle's own recursion cap was hit
-	DeepOff     int  // offset of the first container header at nesting 65 (-1: never reached)
+	DontCare    bool   // empty container with unknown element type met
+	TooDeep     bool   // the oracle's own recursion cap was hit
+	DeepOff     int    // offset of the first container header at nesting 65 (-1: never reached)
 }
 
 const oracleDepthCap = 400
